@@ -234,12 +234,15 @@ func (s *Sched) onPoint(store any, op string, key []byte) error {
 	return r.Err
 }
 
-func (s *Sched) onPointDone(store any, _ string, _ []byte) {
+func (s *Sched) onPointDone(store any, op string, _ []byte) {
 	if s.direct.Load() {
 		return
 	}
 	if inst := s.instOf(store); inst != nil {
 		inst.inStoreOp.Add(-1)
+		if inst.OnStoreDone != nil {
+			inst.OnStoreDone(op)
+		}
 	}
 }
 
